@@ -1,6 +1,9 @@
 //! Certificate reloader with file watching and hot reload support
 
-use crate::util::{AnyTlsError, CertificateInfo, Result, create_server_config_from_files};
+use crate::util::{
+    AnyTlsError, CertificateInfo, Result, create_server_config_from_files,
+    create_server_config_from_pem,
+};
 use notify::{Config, Event, EventKind, RecommendedWatcher, RecursiveMode, Watcher};
 use std::path::PathBuf;
 use std::sync::{Arc, RwLock};
@@ -120,14 +123,24 @@ impl CertReloader {
         info!("[CertReloader] Reloading certificate...");
 
         // Load new certificate
-        let new_config =
-            create_server_config_from_files(&self.config.cert_path, &self.config.key_path)?;
+        // Read each file exactly once: the acceptor and the reported certificate
+        // information must come from the same bytes, or a file replaced in the
+        // middle of a reload would leave them describing different certificates.
+        #[cfg(feature = "verif")]
+        crate::verif::sync_point("tls.before_cert_read");
+        let cert_pem = std::fs::read(&self.config.cert_path).map_err(AnyTlsError::Io)?;
+        #[cfg(feature = "verif")]
+        crate::verif::sync_point("tls.between_cert_and_key");
+        let key_pem = std::fs::read(&self.config.key_path).map_err(AnyTlsError::Io)?;
+        #[cfg(feature = "verif")]
+        crate::verif::sync_point("tls.after_key_read");
+        let new_config = create_server_config_from_pem(&cert_pem, &key_pem)?;
         let new_acceptor = Arc::new(TlsAcceptor::from(new_config));
 
         // Analyze new certificate
         #[cfg(feature = "verif")]
         crate::verif::sync_point("reload.before_info_read");
-        let new_cert_info = CertificateInfo::from_pem_file(&self.config.cert_path)?;
+        let new_cert_info = CertificateInfo::from_pem_bytes(&cert_pem)?;
 
         // Log changes
         if let Some(ref old_info) = *self.cert_info.read().unwrap() {
